@@ -46,6 +46,7 @@ func (r *Run) Sharded(n int, work func(i, n int)) {
 	if i, nn, ok := ShardInfo(); ok {
 		r.shardViol = []pviol{}
 		work(i, nn)
+		stopProf()
 		r.writePartial(i)
 		os.Exit(0)
 	}
